@@ -170,4 +170,34 @@ theorem pskMismatch_built (S : Suite) (hL : S.HashLen) (hpl : S.PubLen) (av : Av
   rw [a6, b6]
   exact hne
 
+/-- **The protocol name enters `h`**: two built sessions whose initial `h` (the padded or hashed
+    protocol name) differ have different `h` after `build`, whatever the prologues and keys are,
+    or a hash collision is exhibited. -/
+theorem builtSym_div_name (S : Suite) (hL : S.HashLen) (cI cR : BuildCfg)
+    (hi : cI.initiator = true) (hr : cR.initiator = false) (hp : cI.pattern = cR.pattern)
+    (hn : (Sym.init S cI.name).h ≠ (Sym.init S cR.name).h) :
+    (builtSym S cI).h ≠ (builtSym S cR).h ∨ HashCollision S := by
+  unfold builtSym premixBoth
+  simp only [hi, hr, ↓reduceIte, Bool.false_eq_true, ← hp]
+  have l0I : ((Sym.init S cI.name).mixHash S cI.prologue).h.length = S.hashLen := hL _
+  have l0R : ((Sym.init S cR.name).mixHash S cR.prologue).h.length = S.hashLen := hL _
+  rcases mixHash_div S (Sym.init S cI.name) (Sym.init S cR.name) cI.prologue cR.prologue
+      (by rw [init_h_len S hL, init_h_len S hL]) (Or.inl hn) with h0 | h0
+  · rcases premix_div S hL _ _ cI.pattern.tokens.preI _ _ l0I l0R (Or.inl h0) with h1 | h1
+    · exact premix_div S hL _ _ cI.pattern.tokens.preR _ _ (premix_h_len S hL _ _ _ l0I)
+        (premix_h_len S hL _ _ _ l0R) (Or.inl h1)
+    · exact Or.inr h1
+  · exact Or.inr h0
+
+theorem div_built_name (S : Suite) (hL : S.HashLen) (av : Avail) (cI cR : BuildCfg) (A B : HS)
+    (hA : build S av cI = .ok A) (hB : build S av cR = .ok B)
+    (hi : cI.initiator = true) (hr : cR.initiator = false) (hp : cI.pattern = cR.pattern)
+    (hn : (Sym.init S cI.name).h ≠ (Sym.init S cR.name).h) :
+    Div (absHS A) (absHS B) ∨ HashCollision S := by
+  rcases builtSym_div_name S hL cI cR hi hr hp hn with h | h
+  · left; left
+    rw [built_h S av cI A hA, built_h S av cR B hB]
+    exact h
+  · exact Or.inr h
+
 end SnowVerif.C03Run
